@@ -79,6 +79,11 @@ def struct(e, defaults_ok=True):
             tuple(struct(c) for c in e))
 
 
+def list_with_attrs(xsd):
+    """input-only predicate: the schema extends the list type `ints` into a simple-content type (with attributes)."""
+    return 'base="t:ints"' in xsd or 'base="ints"' in xsd
+
+
 def nsmap_for(g):
     m = {'xsi': XSI}
     if g.tns:
@@ -117,9 +122,10 @@ def roundtrip(s, g, doc, name, conv, kw, st, label, classes=(), enc_kw=None):
     data2 = s.decode(txt, **opts)
     same = (compare.de_canon(data2) == compare.de_canon(data)) if conv is DataElementConverter \
         else repr(data2) == repr(data)
-    if ' xmlns="' in doc.split('>', 1)[0] and conv is not DataElementConverter:
-        # the re-encoded tree is serialised with a prefix while the original used the default namespace: the raw
-        # keys legitimately differ ('root' vs 'p:root'); typed equality is already established above
+    if (' xmlns="' in doc.split('>', 1)[0] or 'urn:rebound' in doc) and conv is not DataElementConverter:
+        # the re-encoded tree is serialised with one root-level prefix while the original used the default namespace or
+        # inner prefix scopes: the raw keys legitimately differ ('root' / 'q:e1' vs 'p:root' / 'p:e1'); typed equality is
+        # already established above
         same = True
     if not same:
         out.append(rec('roundtrip_data', 'decodes to the same data again', repr(data2)[:200]))
@@ -367,7 +373,8 @@ def run_shard(desc):
             dg.mark_inheritable(g, rnd)
         s = cls(g.xsd())
         tree = g.inst()
-        doc = dg.ser(tree, default_ns=rnd.random() < .4)
+        sp = {p for _, p in dg.nodes(tree) if p and len(p) <= 3 and rnd.random() < .5} if rnd.random() < .3 else None
+        doc = dg.ser(tree, default_ns=rnd.random() < .4, switch_paths=sp)
         recs = []
         ntv = dg.depth_of(tree) >= 2 and any(n_['attrs'] for n_, _ in dg.nodes(tree))
         cont, mixed = contiguous(tree) and model_contiguous(tree), has_mixed(tree)
@@ -378,11 +385,15 @@ def run_shard(desc):
             if ntv:
                 st_.nt((g.xsd(), doc, name))
             recs += roundtrip(s, g, doc, name, conv, kw, st_, 'lossless', rcl)
+        lcl = ['list-simple-content-with-attributes'] if list_with_attrs(g.xsd()) else []
         for name, conv, kw in DICT:
-            if cont and not mixed:
+            if cont and not mixed and sp:
+                # same-named siblings written with different prefixes are different dictionary keys: not contiguous
+                st_.cls('dict_converter_not_asserted(inner prefix scopes)')
+            elif cont and not mixed:
                 if ntv:
                     st_.nt((g.xsd(), doc, name))
-                recs += roundtrip(s, g, doc, name, conv, kw, st_, 'dict/contiguous', rcl)
+                recs += roundtrip(s, g, doc, name, conv, kw, st_, 'dict/contiguous', rcl + lcl)
             else:
                 st_.cls('dict_converter_not_asserted(non-contiguous or mixed)')
         for name, conv in (('default', XMLSchemaConverter), ('JsonML', JsonMLConverter),
@@ -418,6 +429,8 @@ def replay(record):
                              enc_kw=dict(path='p:root', namespaces={'p': 'urn:t'}))
         elif record['kind'].startswith('roundtrip'):
             rcl = ['nil-on-list-type'] if ('nil=' in doc and 'itemType' in xsd) else []
+            if inp.get('label') == 'dict/contiguous' and list_with_attrs(xsd):
+                rcl.append('list-simple-content-with-attributes')
             recs = roundtrip(s, G, doc, name, CONV[name], {}, st, inp.get('label', ''), rcl)
         else:
             recs = []
